@@ -9,7 +9,7 @@ claim("C13",
  "DESIGN.md 3/C13")
 claim("C15",
  "Proof for every byte stream: the frame reader (ReadLV/ReadTLV/ReadType and the Decode*/Encode*/Write* family) never panics and never allocates more than MaxMessageSize for a frame (alloc-bound obligation on make); WriteShardRequest.unmarshalPoints never hands a nil point to the store. Streamed query point codecs (protobuf-generated) are not covered.",
- "io.Reader/io.Writer/net.Conn/encoding.BinaryMarshaler are assumed contracts; binary.Read/io.ReadFull are trusted models; models.NewPointFromBytes is an assumed contract here (verified separately under C12 where listed).",
+ "io.Reader/io.Writer/net.Conn/encoding.BinaryMarshaler are assumed contracts; binary.Read/io.ReadFull are trusted models; models.NewPointFromBytes and the field iterator behind Fields() are verified (shared with C12).",
  "DESIGN.md 3/C15")
 claim("C18",
  "Proof of the failure-atomic advertisement chain only: coordinator.Client.CopyShard (and the sibling Client RPCs) return a non-nil error on any transport/decode error or when the response carries Err. Equality of shard contents through backup/restore is NOT decided by this technique.",
@@ -55,3 +55,7 @@ claim("C07",
  "Proof of the snapshot-isolation mechanism only: Data.Clone and the clone methods of DatabaseInfo, RetentionPolicyInfo, ShardGroupInfo, ShardInfo, UserInfo and CloneDatabases/CloneUsers return values every slice/map field of which is empty or freshly allocated by the call (two levels deep for shard groups), of the original's length, and write nothing that existed before (frame). Hence a published metadata object is never mutated through its clone. Raft, failover, restart, log replay, validateCommand and the protobuf round trip are NOT decided.",
  "copy/make/append follow the memory model built into govc.",
  "DESIGN.md 3/C07")
+claim("C12",
+ "Proof for every byte string: the line-protocol scanner (ParsePointsWithPrecision, parsePoint, scanKey, scanMeasurement, scanTags, scanTagsKey, scanTagsValue, scanFields, scanNumber, scanBoolean, scanTime, scanLine, scanTo, scanToSpaceOr, scanTagValue, scanFieldValue, skipWhitespace, insertionSort, less, walkFields, unescapeStringField) never panics (every index, slice, make and overflow obligation discharged under loop invariants; inter-procedural index facts carried by contracts, e.g. scanKey ends at an unescaped space so scanFields' look-behind is in range), a failing line leaves the points accepted so far in place and every accepted point is non-nil; the binary decoder (point.UnmarshalBinary, NewPointFromBytes, the field iterator Next/StringValue and point.unmarshalBinary behind Fields()) never panics on any bytes; MarshalBinary writes len32(key)|key|len32(fields)|fields|time and UnmarshalBinary reads that layout, and the layout determines key and fields (lemma), so the binary form reproduces both byte for byte. ONE assumption is not proved and is covered by a BOUNDED stand-in only: in scanKey's re-sort path the rebuilt key fits its buffer. Textual round trip, escape/unescape inverses and tag-order independence of key and hash are BOUNDED (exhaustive small-scope runs of the real parser), not proved.",
+ "parseIntBytes/parseUintBytes/parseFloatBytes/parseBoolBytes (unsafe string cast + strconv) and pkg/escape helpers are trusted models; time.Time.UnmarshalBinary is modelled as: success implies at least 15 input bytes.",
+ "DESIGN.md 3/C12")
